@@ -36,6 +36,7 @@ def spaces(tier):
             yield ("hlist", seqs, 2)
         for seqs in E.lists(V, 2):          # the three-substitution ball (pairs at distance 1 and 2 must keep their distance inside it)
             yield ("hlist", seqs, 3)
+            yield ("hlist", seqs, 4)        # a radius beyond every string's length: the ball is all strings of that length
 
     def gen_uni():
         for alpha, L in ([("ACD", 5)] if q else [("ACD", 6), ("ACDE", 5)]):
@@ -57,7 +58,7 @@ def spaces(tier):
         Space("long-string-boundary-family", gen_long, "equal-length neighbours and near-misses of length 127..300 mixed with short strings: x^n, x^(n-1)y, yx^(n-1), x^(n-2)yy, x^(n+1), x^(n-1); all engines, k in 1..2 (hash_based k=1)", per_case=True),
         Space("all-length-interleavings", gen_lists, "Lists(V,4) quick / Lists(V,5) thorough, V = 14 strings of length 1..3 over {A,C}; k in 1..3; nearest_neighbor, symdel, symdel(seqs2=self), kdtree", shards=64),
         Space("lists-with-empty-strings", gen_empty, "all lists of 2..4(5) strings over {'', A, C, AC} containing the empty string at least once (two empty strings are equal-length neighbours at distance 0)", shards=16),
-        Space("all-length-interleavings-hash_based", gen_lists_hash, "Lists(V,3) x k in 1..2 and Lists(V,2) x k=3 on hash_based"),
+        Space("all-length-interleavings-hash_based", gen_lists_hash, "Lists(V,3) x k in 1..2 and Lists(V,2) x k in 3..4 on hash_based"),
         Space("mixed-length-universe", gen_uni, "U(ACD,5) quick / U(ACD,6),U(ACDE,5) thorough as one list in sorted, reversed and length-interleaved order", per_case=True),
     ]
 
